@@ -75,12 +75,12 @@ def _place(rng, n, horizon, loc=None, tag=None, windows=None):
         pass                                           # no times: any time
     elif k < 8:
         a = rng.range(0, horizon)
-        p['times'] = [[rfc(a), rfc(a + rng.range(0, 120))]]
+        p['times'] = [[rfc(a), rfc(a + rng.choice([rng.range(0, 40), rng.range(40, 250), rng.range(100, 400)]))]]
     else:
         a = rng.range(0, horizon // 2)
-        b = a + rng.range(0, 60)
+        b = a + rng.range(0, 80)
         c = b + rng.range(1, 80)
-        p['times'] = [[rfc(a), rfc(b)], [rfc(c), rfc(c + rng.range(0, 90))]]
+        p['times'] = [[rfc(a), rfc(b)], [rfc(c), rfc(c + rng.range(0, 200))]]
     if tag is not None:
         p['tag'] = tag
     return p
@@ -118,7 +118,7 @@ def gen_problem(rng, njobs=None, metric=None, nlocs=None, tight=None, multi=True
     dur, dist = gen_matrix(rng, n, metric)
     njobs = njobs or rng.range(3, 10)
     if tight is None:
-        tight = rng.chance(1, 3)
+        tight = rng.chance(1, 4)
     horizon = rng.choice([150, 300, 500])
     all_skills = ['s1', 's2']
 
@@ -138,7 +138,7 @@ def gen_problem(rng, njobs=None, metric=None, nlocs=None, tight=None, multi=True
             sh['start']['latest'] = rfc(e1 + rng.range(1, 120))
         shifts = [sh]
         if rng.chance(7, 10):
-            end1 = e1 + (rng.range(60, 200) if tight else rng.range(150, 600))
+            end1 = e1 + (rng.range(60, 200) if tight else rng.range(horizon, horizon + 500))
             sh['end'] = {'latest': rfc(end1), 'location': {'index': rng.choice([start_loc, start_loc, rng.below(n)])}}
             if rng.chance(1, 4):
                 e2 = end1 + rng.range(1, 100)
@@ -210,38 +210,47 @@ def gen_problem(rng, njobs=None, metric=None, nlocs=None, tight=None, multi=True
                         cand = [l for l in range(n) if l not in used]
                         if cand:
                             p['location'] = {'index': rng.choice(cand)}
-        if skills and rng.chance(1, 6):
+        if skills and rng.chance(1, 10):
             job['skills'] = {'allOf': [rng.choice(all_skills)]}
         jobs.append(job)
 
     problem = {'plan': {'jobs': jobs}, 'fleet': {'vehicles': vehicles, 'profiles': [{'name': 'car'}]}}
-    # validation E1504: the matrix size must be (max used location index + 1)
-    m = max(used_locations(problem)) + 1
-    dur = [dur[i * n + j] for i in range(m) for j in range(m)]
-    dist = [dist[i * n + j] for i in range(m) for j in range(m)]
-    n = m
+    # validation E1504: the matrix size must equal the number of DISTINCT locations used (CoordIndex), so the used
+    # indices are renumbered to 0..m-1 and the matrix is restricted to them
+    used = sorted(set(used_locations(problem)))
+    ren = {l: k for k, l in enumerate(used)}
+    for loc in location_refs(problem):
+        loc['index'] = ren[loc['index']]
+    dur = [dur[i * n + j] for i in used for j in used]
+    dist = [dist[i * n + j] for i in used for j in used]
+    n = len(used)
     matrix = {'profile': 'car', 'travelTimes': dur, 'distances': dist}
     return {'problem': problem, 'matrices': [matrix],
             'meta': {'n': n, 'metric': bool(metric), 'tight': bool(tight), 'njobs': njobs}}
 
 
-def used_locations(problem):
+def location_refs(problem):
+    """all location objects ({'index': i}) of a problem, as mutable references"""
     locs = []
     for j in problem['plan']['jobs']:
         for _, t in tasks_of(j):
-            locs += [pl['location']['index'] for pl in t['places']]
+            locs += [pl['location'] for pl in t['places']]
     for v in problem['fleet']['vehicles']:
         for sh in v['shifts']:
-            locs.append(sh['start']['location']['index'])
+            locs.append(sh['start']['location'])
             if sh.get('end'):
-                locs.append(sh['end']['location']['index'])
+                locs.append(sh['end']['location'])
     return locs
+
+
+def used_locations(problem):
+    return [l['index'] for l in location_refs(problem)]
 
 
 def gen_config(rng, tier='quick'):
     r = rng.below(10)
-    if r < 2:
-        gens = 0
+    if r < 1 and rng.chance(1, 2):
+        gens = 0               # the solver returns an error ("cannot find any solution"): no document
     elif r < 5:
         gens = rng.range(1, 3)
     else:
@@ -475,3 +484,180 @@ def doc_summary(s):
                     ids.append(a['jobId'])
         tours.append(ids)
     return tours, [u['jobId'] for u in s.get('unassigned') or []]
+
+
+# ------------------------------------------------------------------------------------------------ preconditions
+def distinguishable(problem):
+    """Valid.precond_viol / tasks_distinct: same-kind tasks of one job use disjoint location sets"""
+    for j in problem['plan']['jobs']:
+        ts = tasks_of(j)
+        for a in range(len(ts)):
+            for b in range(a + 1, len(ts)):
+                if ts[a][0] == ts[b][0]:
+                    la = {p['location']['index'] for p in ts[a][1]['places']}
+                    lb = {p['location']['index'] for p in ts[b][1]['places']}
+                    if la & lb:
+                        return False
+    return True
+
+
+def gen_checked_problem(rng, **opts):
+    """gen_problem, regenerated until the checker's preconditions hold (they nearly always do)"""
+    for _ in range(20):
+        p = gen_problem(rng, **opts)
+        if distinguishable(p['problem']):
+            return p
+    return gen_problem(rng, multi=False, **{k: v for k, v in opts.items() if k != 'multi'})
+
+
+def gen_cases(rng, n, per_problem=3, trace=0, **opts):
+    """n harness cases: generated problems x `per_problem` configurations each"""
+    cases = []
+    while len(cases) < n:
+        p = gen_checked_problem(rng, **opts)
+        for _ in range(per_problem):
+            if len(cases) >= n:
+                break
+            cfg = gen_config(rng)
+            if trace:
+                cfg['trace'] = trace
+            c = solve_case(p, cfg)
+            c['meta'] = p['meta']
+            cases.append(c)
+    return cases
+
+
+def outcome(impl):
+    """'solution' | 'error' | 'panic' of a harness result"""
+    if impl is None or 'panic' in impl:
+        return 'panic'
+    if 'error' in impl or 'solution' not in impl:
+        return 'error'
+    return 'solution'
+
+
+# ------------------------------------------------------------------------------------------------ python twin (A)
+def _flat_tour(t):
+    """python twin of Valid.flat_tour: [(job id str, type, location index)]"""
+    out = []
+    for s in t['stops']:
+        for a in s['activities']:
+            loc = (a.get('location') or s.get('location') or {}).get('index')
+            out.append((a.get('jobId'), a.get('type'), loc))
+    return out
+
+
+def py_accounting(p, s):
+    """plain re-implementation of Valid.accounted_b on the raw JSON; returns a sorted list of (constructor, arg)"""
+    pr = p['problem']
+    ids = Ids(p)
+    jobkinds = ('pickup', 'delivery', 'service', 'replacement')
+    kindno = {'pickup': 0, 'delivery': 1, 'service': 2, 'replacement': 3}
+    tours = s.get('tours') or []
+    un = s.get('unassigned') or []
+    flats = [_flat_tour(t) for t in tours]
+    v = []
+    plan = {j['id'] for j in pr['plan']['jobs']}
+    for j in pr['plan']['jobs']:
+        jn = ids.job(j['id'])
+        where = [[a for a in f if a[1] in jobkinds and a[0] == j['id']] for f in flats]
+        tw = [w for w in where if w]
+        us = [u for u in un if u['jobId'] == j['id']]
+        if not tw and not us:
+            v.append(('AJobLost', jn))
+        elif not tw and len(us) == 1:
+            if len(us[0].get('reasons') or []) < 1:
+                v.append(('AJobNoReason', jn))
+        elif len(tw) == 1 and not us:
+            acts = tw[0]
+            ts = tasks_of(j)
+            ok = len(acts) == len(ts)
+            for kind, t in ts:
+                locs = {pl['location']['index'] for pl in t['places']}
+                if sum(1 for a in acts if kindno[a[1]] == kind and a[2] in locs) != 1:
+                    ok = False
+            if not ok:
+                v.append(('AJobIncomplete', jn))
+            seen_delivery = False
+            order_ok = True
+            for a in acts:
+                if a[1] == 'delivery':
+                    seen_delivery = True
+                elif a[1] == 'pickup' and seen_delivery:
+                    order_ok = False
+            if not order_ok:
+                v.append(('AJobOrder', jn))
+        else:
+            v.append(('AJobDuplicated', jn))
+    for f in flats:
+        for a in f:
+            if a[1] in jobkinds and a[0] not in plan:
+                v.append(('AForeignJob', ids.job(a[0])))
+    for u in un:
+        if u['jobId'] not in plan:
+            v.append(('AForeignJob', ids.job(u['jobId'])))
+    seen = []
+    for k, t in enumerate(tours):
+        named = False
+        for vt in pr['fleet']['vehicles']:
+            if vt['typeId'] == t.get('typeId') and t.get('vehicleId') in vt['vehicleIds'] \
+                    and t.get('shiftIndex', 0) < len(vt['shifts']):
+                named = True
+        if not named:
+            v.append(('ATourVehicle', k))
+        if not any(a[1] in jobkinds for a in flats[k]):
+            v.append(('ATourEmpty', k))
+        key = (t.get('vehicleId'), t.get('shiftIndex', 0))
+        if key in seen:
+            v.append(('AShiftTwice', k))
+        seen.append(key)
+        if any(a[1] not in jobkinds + ('departure', 'arrival') for a in flats[k]):
+            v.append(('AExtraActivity', k))
+    return sorted(v)
+
+
+def coq_viols(val, group=None):
+    """Coq `list violation` value -> sorted [(constructor, args...)], optionally only one group (first letter)"""
+    out = []
+    for x in val or []:
+        t = (x,) if isinstance(x, str) else tuple(x)
+        if group is None or t[0][0] in group:
+            out.append(t)
+    return sorted(out)
+
+
+# ------------------------------------------------------------------------------------------------ bookkeeping traces
+def g_hsol(ids, st):
+    return '(mkH %s %s %s)' % (lst(st['routes'], lambda r: zlist([ids.job(x) for x in r])),
+                               zlist([ids.job(x) for x in st['required']]), zlist([ids.job(x) for x in st['unassigned']]))
+
+
+def g_trace(p, trace, ids=None):
+    ids = ids or Ids(p)
+    jobs = zlist([ids.job(j) for j in all_job_ids(p)])
+    return '(run_trace %s %s)' % (jobs, lst(trace, lambda st: g_hsol(ids, st)))
+
+
+def vehicle_type_of(p, tour):
+    for vt in p['problem']['fleet']['vehicles']:
+        if vt['typeId'] == tour.get('typeId') and tour.get('vehicleId') in vt['vehicleIds']:
+            return vt
+    return None
+
+
+def unbounded_departure_possible(problem):
+    """structure behind finding C02-F2: a vehicle type with limits.maxDuration owning a shift with neither start.latest
+    nor end, and a job place without `times` (window end = f64::MAX): TravelLimitState::notify_failure then advances the
+    departure of an EMPTY route to f64::MAX, and the writer's format_time unwraps an out-of-range timestamp"""
+    open_shift = any((vt.get('limits') or {}).get('maxDuration') is not None
+                     and any(sh['start'].get('latest') is None and sh.get('end') is None for sh in vt['shifts'])
+                     for vt in problem['fleet']['vehicles'])
+    no_times = any(pl.get('times') is None for j in problem['plan']['jobs'] for _, t in tasks_of(j) for pl in t['places'])
+    return open_shift and no_times
+
+
+def panic_class(c, msg):
+    """violation class of a solver panic, derived from the message and the structure of the input"""
+    if 'ComponentRange' in msg and 'timestamp' in msg and unbounded_departure_possible(c['problem']):
+        return 'writer-panic-unbounded-departure-max-duration-vehicle'
+    return 'solver-panic'
